@@ -621,7 +621,7 @@ struct Game {
       int rc = cls_of(*n);
       std::string xn = i == 0 ? "natural" : xr[i - 1].name, yn = j == 0 ? "natural" : yr[j - 1].name;
       if (rc != rcls) {
-        std::string cav = d.repdep_caveat(op.name, CL[xcls], CL[ycls]);
+        std::string cav = d.repdep_caveat(op.name, CL[xcls], CL[ycls], xn, yn);
         if (!cav.empty()) {
           opcount(gop, OC_REPDEP_CAVEAT);
           // even under a documented caveat the result must be one the documentation allows
